@@ -34,6 +34,7 @@ package store
 //@   ensures index_error_reported [C16]: ferr != nil ==> err != nil
 
 //@ func FindCid
+//@   check a_confirmed_section_is_returned [C04,C06,C07]: gerr == nil && cur(fnErr) == nil && cur(fnLen) != -1 ==> err == nil && result2 == cur(fnLen) && result1 == cur(fnOffset) && ref(result0) == ref(cur(fnData))
 //@   let gerr := call[Index.GetAll#0]
 //@   check ok_confirmed [C04,C07]: err == nil ==> closure_called(0) && !closure_result(0) && result2 != -1
 //@   ensures ok_nonsentinel [C04,C07]: err == nil ==> result2 != -1
